@@ -21,6 +21,7 @@ type sessGen struct {
 	macros  map[string]bool
 	vars    map[string]bool
 	consts  map[string]bool
+	constInst map[string]bool // constants whose value is or holds an instance (printed with an address: not probed bare)
 	flavors []string
 	classes []string
 	pkgs    []string
@@ -269,6 +270,54 @@ func instanceSlotSessions() (sessions [][]string, probes [][]string) {
 	s2 := append([]string{fl, "(defparameter *bj* (make-instance 'blk) \"set by send\")"}, sends...)
 	s3 := []string{fl, "(defvar *bk* 1)", "(setq *bk* (make-instance 'blk " + strings.Join(init, " ") + "))"}
 	return [][]string{s1, s2, s3}, [][]string{probeI, probeJ, probeK}
+}
+
+// constantInstanceSessions: the enumerated block (independent of the seed) of constants whose value is a flavor instance,
+// holds one in a list, or is an instance holding an instance; with plain constants and variables around them. All inside
+// the Coq session model.
+func constantInstanceSessions() (sessions [][]string, probes [][]string) {
+	fl := "(defflavor blk (sa (sb 2)) () :gettable-instance-variables :settable-instance-variables :inittable-instance-variables)"
+	sessions = [][]string{
+		{fl, "(defconstant +ci+ (make-instance 'blk :sa 1))"},
+		{fl, "(defconstant +cl+ (list 1 (make-instance 'blk :sa '(x y)) \"s\") \"a list holding an instance\")"},
+		{fl, "(defconstant +cn+ (make-instance 'blk :sa (make-instance 'blk :sa 1) :sb \"outer\"))"},
+		{"(defconstant +ca+ 42)", fl, "(defvar *bi* (make-instance 'blk :sa 3))", "(defconstant +ci+ (make-instance 'blk :sb '(p q)) \"doc\")",
+			"(defconstant +zz+ '(1 2))"},
+	}
+	probes = [][]string{
+		{"(send +ci+ :sa)", "(send +ci+ :sb)", "(constantp '+ci+)", "(boundp '+ci+)"},
+		{"(car +cl+)", "(send (cadr +cl+) :sa)", "(caddr +cl+)", "(constantp '+cl+)", "(documentation '+cl+ 'variable)"},
+		{"(send (send +cn+ :sa) :sa)", "(send +cn+ :sb)", "(constantp '+cn+)"},
+		{"+ca+", "+zz+", "(send *bi* :sa)", "(send +ci+ :sb)", "(send +ci+ :sa)", "(constantp '+ci+)", "(documentation '+ci+ 'variable)"},
+	}
+	return
+}
+
+// constantObjectSessions: the same for the kinds of value the Coq model does not cover (judged on the implementation): a
+// constant holding an instance of a defclass class, a list holding one, a hash table holding a flavor instance; and the
+// other direction: a defflavor default, a defclass initform (also of a class-allocated slot) and :default-initargs that
+// mention a constant (they are evaluated when an instance is made, never when the definition is loaded).
+func constantObjectSessions() (sessions [][]string, probes [][]string) {
+	cl := "(defclass c19k () ((s :initarg :s :initform 1) (u :initform '(a b))) (:documentation \"class c19k\"))"
+	fl := "(defflavor blk (sa (sb 2)) () :gettable-instance-variables :settable-instance-variables :inittable-instance-variables)"
+	sessions = [][]string{
+		{cl, "(defconstant +ck+ (make-instance 'c19k :s 5))"},
+		{cl, "(defconstant +ckl+ (list 'a (make-instance 'c19k :s '(x 1))) \"holds one\")"},
+		{fl, "(defconstant +ch+ (let ((table (make-hash-table))) (setf (gethash 'k table) (make-instance 'blk :sa 1)) table))"},
+		{"(defclass c19p () ((s :initarg :s :initform 1)))", "(defclass c19q (c19p) ((w :initform 2)))", "(defconstant +cq+ (make-instance 'c19q :s 7))"},
+		{"(defconstant +kk+ 5)", "(defflavor fk ((a +kk+) (b (+ +kk+ 1))) () :gettable-instance-variables :inittable-instance-variables)",
+			"(defclass c19d () ((s :initarg :s :initform +kk+) (cs :initform (* 2 +kk+) :allocation :class)) (:default-initargs :s (+ +kk+ 10)))",
+			"(defvar *fk* (make-instance 'fk))", "(defvar *cd* (make-instance 'c19d))"},
+	}
+	probes = [][]string{
+		{"(slot-value +ck+ 's)", "(slot-value +ck+ 'u)", "(constantp '+ck+)"},
+		{"(car +ckl+)", "(slot-value (cadr +ckl+) 's)", "(constantp '+ckl+)"},
+		{"(send (gethash 'k +ch+) :sa)", "(send (gethash 'k +ch+) :sb)", "(constantp '+ch+)"},
+		{"(slot-value +cq+ 's)", "(slot-value +cq+ 'w)", "(constantp '+cq+)"},
+		{"+kk+", "(send *fk* :a)", "(send *fk* :b)", "(send (make-instance 'fk) :b)", "(slot-value *cd* 's)", "(slot-value *cd* 'cs)",
+			"(slot-value (make-instance 'c19d) 's)", "(slot-value (make-instance 'c19d :s 1) 'cs)"},
+	}
+	return
 }
 
 func defaultFormSessions() (sessions [][]string, probes [][]string) {
@@ -713,6 +762,43 @@ func (g *sessGen) step() {
 			g.hist("op:defconstant-list-or-symbol")
 			v = common.Pick(g.r, []string{"'(1 2)", "'csym", "'(a (b))"})
 		}
+		if g.modelled && len(g.flavors) > 0 && g.r.Chance(35) {
+			// a constant whose value is a flavor instance, or a list holding one: its defconstant must be written after
+			// the defflavor (repo_fixes/C19-33)
+			fl := g.flavors[g.r.Intn(len(g.flavors))]
+			inst := "(make-instance '" + fl
+			if g.flavorInit[fl] {
+				for _, iv := range g.flavorVars[fl] {
+					if g.r.Chance(60) {
+						inst += fmt.Sprintf(" :%s %s", iv.name, g.slotValue(fl, 1))
+					}
+				}
+			}
+			inst += ")"
+			g.constInst[n] = true
+			if g.r.Chance(30) {
+				g.hist("op:defconstant-list-holding-instance")
+				v = "(list 1 " + inst + " 'a)"
+				for _, iv := range g.flavorVars[fl] {
+					g.probe(fmt.Sprintf("(send (cadr %s) :%s)", n, iv.name))
+				}
+			} else {
+				g.hist("op:defconstant-instance")
+				v = inst
+				for _, iv := range g.flavorVars[fl] {
+					g.probe(fmt.Sprintf("(send %s :%s)", n, iv.name))
+				}
+			}
+			g.probe(fmt.Sprintf("(constantp '%s)", n))
+		} else if !g.modelled && !g.wild && len(g.classes) > 0 && g.r.Chance(35) {
+			// ... or an instance of a defclass class (sessions judged on the implementation)
+			g.hist("op:defconstant-class-instance")
+			cl := g.classes[g.r.Intn(len(g.classes))]
+			v = fmt.Sprintf("(make-instance '%s :%s-s1 '(k %d))", cl, cl, g.r.Intn(9))
+			g.constInst[n] = true
+			g.probe(fmt.Sprintf("(slot-value %s '%s-s1)", n, cl))
+			g.probe(fmt.Sprintf("(constantp '%s)", n))
+		}
 		f := "(defconstant " + n + " " + v
 		if g.r.Chance(40) {
 			f += " \"" + g.doc() + "\""
@@ -1054,7 +1140,7 @@ func (g *sessGen) step() {
 // genSession builds one session: forms and probes.
 func genSession(r *common.Rng, hist func(string), wild, modelled bool) (forms, probes []string, wildText bool) {
 	g := &sessGen{r: r, hist: hist, funs: map[string]string{}, macros: map[string]bool{}, vars: map[string]bool{},
-		consts: map[string]bool{}, wild: wild, modelled: modelled, calls: map[string]map[string]bool{},
+		consts: map[string]bool{}, constInst: map[string]bool{}, wild: wild, modelled: modelled, calls: map[string]map[string]bool{},
 		flavorVars: map[string][]flavorVar{}, flavorInit: map[string]bool{}, flavorGet: map[string]bool{}, flavorSet: map[string]bool{}, instVars: map[string]bool{}, instOf: map[string]string{}}
 	n := 3 + r.Intn(10)
 	for i := 0; i < n; i++ {
@@ -1076,7 +1162,9 @@ func genSession(r *common.Rng, hist func(string), wild, modelled bool) (forms, p
 		g.probe(fmt.Sprintf("(documentation '%s 'variable)", v))
 	}
 	for _, c := range common.SortedKeys(g.consts) {
-		g.probe(c)
+		if !g.constInst[c] {
+			g.probe(c)
+		}
 	}
 	for _, f := range common.SortedKeys(g.funs) {
 		k := g.funs[f]
